@@ -142,7 +142,8 @@ Ltac head_step :=
         | _ => change c with c'; cond_step c'
         end ]
   end.
-Ltac exec := rd; repeat head_step; unfold holds; cbn [fst snd].
+Ltac absurd_ne := match goal with H : ?x <> ?x |- _ => exfalso; apply H; reflexivity end.
+Ltac exec := rd; repeat (first [absurd_ne | head_step]); unfold holds; cbn [fst snd].
 (* Inv-preservation of one method *)
 Ltac inv_method H s := inv_start H s; match goal with |- Inv ?m (fst ?t) => change (holds (fun r => Inv m (fst r)) t) end; exec; inv_leaf.
 """
@@ -383,6 +384,35 @@ Proof. intros s r ops E. apply reach; [intros; apply inv_step_%(cn)s; assumption
     return t, thms
 
 
+def convfresh_files(info, choices):
+    """when a PSD is stored (fresh or stale), get_converted_psd returns the estimate of the current attribute values in the
+    requested layout (or raises)"""
+    GEN = HEADER.replace('Gen.C07Machine.', 'Gen.C07Machine Gen.C07Tactics.')
+    sec = "Section Generic.\nVariables (m : mask) (call_ : St -> Res).\nHypothesis Hcall : CallSpec m call_.\n\n"
+    stmt = ("Inv m s -> f_cache s <> VNone ->\n  let r := Spectrum_get_converted_psd call_ %s s in\n"
+            "  Inv m (fst r) /\\ forall p, snd r = Ok p -> p = target m (upd_sides %s (fst r))")
+    prf = ("Proof.\n  intros H Hne. inv_start H s. cbv zeta.\n"
+           "  match goal with |- Inv m (fst ?t) /\\ (forall p, snd ?t = Ok p -> p = target m (upd_sides ?v (fst ?t))) =>\n"
+           "    change (holds (fun r => Inv m (fst r) /\\ (forall p, snd r = Ok p -> p = target m (upd_sides v (fst r)))) t) end.\n"
+           "  exec; (split; [ inv_leaf | let Hp := fresh \"Hp\" in intros p Hp; first [ discriminate Hp\n"
+           "     | injection Hp as <-; rd; real_split; use_bools; first [reflexivity | cache_eq] ] ]).\nQed.\n")
+    files = []
+    for i, c in enumerate(choices):
+        v = '(VStr "%s")' % c
+        t = GEN + sec + "Lemma F_conv_c%d s : %s.\n" % (i, stmt % (v, v)) + prf + "End Generic.\n"
+        files.append(('ConvF_c%d' % i, t))
+    hyps = ' -> '.join('veqb v (VStr "%s") = false' % c for c in choices)
+    t = GEN + sec + "Lemma F_conv_other v s : %s -> %s.\n" % (hyps, stmt % ('v', 'v'))
+    t += prf.replace("intros H Hne.", "intros %s H Hne." % ' '.join('Hv%d' % i for i in range(len(choices)))) + "End Generic.\n"
+    files.append(('ConvF_other', t))
+    t = HEADER.replace('Gen.C07Machine.', 'Gen.C07Machine Gen.C07Tactics ' + ' '.join('Gen.C07%s' % n for n, _ in files) + '.')
+    t += sec + "Theorem converted_is_fresh v s : %s.\nProof.\n  intros H Hne.\n" % (stmt % ('v', 'v'))
+    for i, c in enumerate(choices):
+        t += ("  destruct (veqb v (VStr \"%s\")) eqn:E%d; [apply veqb_sound in E%d; subst v; apply F_conv_c%d; assumption|].\n" % (c, i, i, i))
+    t += "  apply F_conv_other; assumption.\nQed.\nEnd Generic.\n"
+    return files, ('ConvF', t), 'converted_is_fresh'
+
+
 def build_plan(info):
     """stages of files compiled in parallel: [(module name, text, theorem names)]"""
     extra = []
@@ -394,8 +424,10 @@ def build_plan(info):
     cfiles, ccomb, cname = split_files(info, 'Conv', 'Spectrum_get_converted_psd', info['sides_choices'])
     sfiles, scomb, sname = split_files(info, 'Sides', 'Spectrum__setSides', info['sides_choices'])
     i1, i2, inames = init_files(info)
-    stage1 = [('C07Generic', g, gnames)] + [('C07' + n, t, []) for n, t in cfiles + sfiles] + [(i1[0], i1[1], inames[:1])]
-    stage2 = [('C07' + ccomb[0], ccomb[1], [cname]), ('C07' + scomb[0], scomb[1], [sname]), (i2[0], i2[1], inames[1:])]
+    ffiles, fcomb, fname = convfresh_files(info, info['sides_choices'])
+    stage1 = [('C07Generic', g, gnames)] + [('C07' + n, t, []) for n, t in cfiles + sfiles + ffiles] + [(i1[0], i1[1], inames[:1])]
+    stage2 = [('C07' + ccomb[0], ccomb[1], [cname]), ('C07' + scomb[0], scomb[1], [sname]), (i2[0], i2[1], inames[1:]),
+              ('C07' + fcomb[0], fcomb[1], [fname])]
     lem = [n for n in gnames if n.startswith('L_') and n != 'L_call'] + [cname, sname]
     k = 0
     for meth, attr in sorted(setter_methods(info).items()):
